@@ -1,17 +1,18 @@
 #!/bin/sh
-# usage: tools/eval_seeded.sh <PROP> <N> [extra props to run...]
+# usage: [SRCROOT=/tmp/wt-out7 K=1] tools/eval_seeded.sh <PROP> <N> [extra props to run...]
+# (SRCROOT: where the sub-agents wrote; K: index of the patch there, default N; N: number under /verif/seeded)
 # Confirms a sub-agent's seeded defect (/tmp/wt-out/<PROP>/patchN.diff + demoN.py) on a scratch copy of /repo
 # (suite passes with it, demo fails with it, demo passes without it), runs the quick check(s) against the copy,
 # and files it under /verif/seeded/<PROP>-N/.
 PROP=$1; N=$2; shift; shift
-SRC=/tmp/wt-out/$PROP
+SRC=${SRCROOT:-/tmp/wt-out}/$PROP; K=${K:-$N}
 DST=/verif/seeded/$PROP-$N
-[ -f $SRC/patch$N.diff ] || { echo "no patch $SRC/patch$N.diff"; exit 1; }
+[ -f $SRC/patch$K.diff ] || { echo "no patch $SRC/patch$K.diff"; exit 1; }
 SCR=/dev/shm/optyx-seed-$$; rm -rf $SCR; mkdir -p $SCR; rsync -a --exclude .git --exclude __pycache__ /repo/ $SCR/
-if ! (cd $SCR && patch -p1 -s < $SRC/patch$N.diff); then echo "$PROP-$N: PATCH DOES NOT APPLY"; rm -rf $SCR; exit 1; fi
+if ! (cd $SCR && patch -p1 -s < $SRC/patch$K.diff); then echo "$PROP-$N: PATCH DOES NOT APPLY"; rm -rf $SCR; exit 1; fi
 suite=$(cd $SCR && PYTHONPATH=$SCR/src /venv/bin/python -m pytest -q -p no:cacheprovider 2>&1 | tail -1 | cut -c1-80)
-(cd /tmp && PYTHONPATH=$SCR/src timeout 600 /venv/bin/python $SRC/demo$N.py > /tmp/demo_with.$$ 2>&1); rc_with=$?
-(cd /tmp && PYTHONPATH=/repo/src timeout 600 /venv/bin/python $SRC/demo$N.py > /tmp/demo_without.$$ 2>&1); rc_without=$?
+(cd /tmp && PYTHONPATH=$SCR/src timeout 600 /venv/bin/python $SRC/demo$K.py > /dev/shm/demo_with.$$ 2>&1); rc_with=$?
+(cd /tmp && PYTHONPATH=/repo/src timeout 600 /venv/bin/python $SRC/demo$K.py > /dev/shm/demo_without.$$ 2>&1); rc_without=$?
 echo "$PROP-$N suite: $suite | demo with patch rc=$rc_with | demo on pristine rc=$rc_without"
 results=""
 for P in $PROP "$@"; do
@@ -21,7 +22,7 @@ for P in $PROP "$@"; do
   else r="MISSED by $P"; fi
   echo "   $r"; results="$results$r\n"
 done
-mkdir -p $DST; cp $SRC/patch$N.diff $DST/patch.diff; cp $SRC/demo$N.py $DST/demo.py
+mkdir -p $DST; cp $SRC/patch$K.diff $DST/patch.diff; cp $SRC/demo$K.py $DST/demo.py
 printf '%s\n' "suite: $suite" "demo_with_patch_rc: $rc_with" "demo_pristine_rc: $rc_without" > $DST/confirm.txt
 printf "$results" >> $DST/confirm.txt
-rm -rf $SCR /tmp/demo_with.$$ /tmp/demo_without.$$
+rm -rf $SCR /dev/shm/demo_with.$$ /dev/shm/demo_without.$$
